@@ -130,7 +130,7 @@ func corpus(r *h.Run) {
 	for _, c := range []Call{c1("mkdir", "a/b/c"), c1("mkdir", "c"), c1("touch", "a/b/c"), c1("createfile", "a/b/c"), c1("openfile", "a/b/c"), c1("touch", "c/"), {Op: "write", P: "a/b/c", Data: "z"},
 		{Op: "write", P: "d", Data: "z"}, {Op: "write", P: "c/", Data: "z"}, c1("read", "d"), c1("ls", "c"), c1("clean", "c"), c1("rm", "c/"), c1("lsrec", "c"),
 		c2("copy", "d", "c"), c2("copy", "c", "d/c"), c2("copy", "d", "/"), c2("copy", "a", "d"), c2("copy", "c", "a/b/c"), c2("copy", "d", "a/b/c"),
-		c2("move", "d", "c"), c2("move", "c", "d/c"), c2("move", "a", "d"), c2("move", "c", "a/b/c"), c2("move", "d", "a/b/c"), c2("move", "c", "d/a/b/"),
+		c2("move", "d", "c"), c2("move", "c", "d/c"), c2("move", "a", "d"), c2("move", "c", "a/b/c"), c2("movebetween", "c", "a/b/c"), c2("move", "d", "a/b/c"), c2("move", "c", "d/a/b/"),
 		c2("copytofile", "d", "c"), c2("copytofile", "c", "a/b/c"), c2("copytodir", "c", "a/b/c"), c2("copytodir", "d", "c"), c2("copytodir", "c", "a/b"), c1("subdirs", "c"), c1("findall", "c"), c1("tree", "c"), c1("hash", "d"), c1("size", "d")} {
 		loose(conf, c, c1("tree", "/"))
 	}
